@@ -204,19 +204,22 @@ func evalC20AfterUse(w *fw.W, _, _ string) {
 	diff := func(kind, k, a, b string) {
 		w.Fail("table-changed-at-run-time", fmt.Sprintf("%s entry %q was %s at start-up and is %s after %d calls of the detectors", kind, k, a, b, len(use)))
 	}
-	for k, v := range before.SQL {
+	for _, k := range sortedKeys(before.SQL) {
+		v := before.SQL[k]
 		if after.SQL[k] != v {
 			diff("keyword", k, fmt.Sprintf("%q", v), fmt.Sprintf("%q", after.SQL[k]))
 			return
 		}
 	}
-	for k, v := range before.Attrs {
+	for _, k := range sortedKeysI(before.Attrs) {
+		v := before.Attrs[k]
 		if a, ok := after.Attrs[k]; !ok || a != v {
 			diff("black attribute", k, fmt.Sprint(v), fmt.Sprintf("%d (present=%v)", a, ok))
 			return
 		}
 	}
-	for k, v := range before.Events {
+	for _, k := range sortedKeysI(before.Events) {
+		v := before.Events[k]
 		if a, ok := after.Events[k]; !ok || a != v {
 			diff("event", k, fmt.Sprint(v), fmt.Sprintf("%d (present=%v)", a, ok))
 			return
